@@ -8,6 +8,7 @@ use selene_lib::lints::{Diagnostic, Label, Severity};
 use selene_lib::{verif, CheckerDiagnostic};
 use serde_json::json;
 use std::panic::{catch_unwind, AssertUnwindSafe};
+use full_moon::node::Node;
 
 pub fn grange(r: (usize, usize)) -> String {
     format!("({}%N, {}%N)", r.0, r.1)
@@ -187,8 +188,24 @@ pub fn generate(seed: u64, n: usize, _thorough: bool) -> Cases {
                     gstr(dg.code), dg.primary_label.range.0, payload, gsev(d.severity), gsev(d.severity))
             }
         });
+        // every comment token of the file, wherever it is attached
+        let mut comments: Vec<(usize, usize, String)> = Vec::new();
+        for tok in ast.tokens().chain(std::iter::once(ast.eof())) {
+            for t in tok.leading_trivia().chain(tok.trailing_trivia()) {
+                match t.token_type() {
+                    full_moon::tokenizer::TokenType::SingleLineComment { comment }
+                    | full_moon::tokenizer::TokenType::MultiLineComment { comment, .. } => {
+                        comments.push((t.start_position().bytes(), t.end_position().bytes(), comment.to_string()));
+                    }
+                    _ => {}
+                }
+            }
+        }
+        comments.sort();
+        comments.dedup();
+        let comments_term = glist(comments.iter(), |(s, e, text)| format!("({}%N, {}%N, {})", s, e, glist(text.lines(), gcps)));
         cases.push(
-            format!("CFull {} {} {} {}", events_term(&ast), gopt(verif::first_code_range(&ast), grange), raw_term, imp_term),
+            format!("CFull {} {} {} {} {}", events_term(&ast), gopt(verif::first_code_range(&ast), grange), raw_term, imp_term, comments_term),
             json!({"kind": "end-to-end", "source": prog.src, "filters": prog.n_filters, "shapes": prog.shapes,
                    "raw_diagnostics": raw.len(), "diagnostics": imp.len(), "nontrivial": prog.n_filters > 0 && !raw.is_empty()}),
         );
